@@ -92,6 +92,34 @@ func Check(t *testing.T, quick, thorough int, prop func(*rapid.T)) {
 	rapid.Check(t, prop)
 }
 
+// noDeadlineTB hides testing.T.Deadline from rapid (it panics inside a synctest bubble); rapid then
+// uses "now + 24h" - of VIRTUAL time - as its deadline, which is why CheckBubble runs in chunks.
+type noDeadlineTB struct{ *testing.T }
+
+// CheckBubble is Check for properties that run inside a synctest bubble (see Bubble). Virtual time
+// advances by seconds per case (protocol timers), so the cases are run in chunks, each its own
+// rapid.Check with its own seed (a pure function of VERIF_SEED, shard and chunk index) and its own
+// 24 h virtual deadline.
+func CheckBubble(t *testing.T, quick, thorough int, prop func(*rapid.T)) {
+	t.Helper()
+	n := N(quick, thorough)
+	defer ev.Flush()
+	if Replaying() {
+		must(flag.Set("rapid.failfile", os.Getenv("VERIF_REPLAY")))
+		must(flag.Set("rapid.checks", "1"))
+		rapid.Check(noDeadlineTB{t}, prop)
+		return
+	}
+	const chunk = 100
+	for i := 0; n > 0 && !t.Failed(); i++ {
+		c := min(n, chunk)
+		must(flag.Set("rapid.checks", strconv.Itoa(c)))
+		must(flag.Set("rapid.seed", strconv.FormatUint(mix(Seed(), uint64(i)+1), 10)))
+		rapid.Check(noDeadlineTB{t}, prop)
+		n -= c
+	}
+}
+
 // Bubble runs body inside one testing/synctest bubble (virtual time, deterministic timers).
 func Bubble(t *testing.T, body func(t *testing.T)) {
 	t.Helper()
